@@ -147,32 +147,32 @@ def resetSeed (st : St α) (seed : Option Nat) : St α :=
 /-- the `seed` property setter: `if new_seed != self._seed: self.reset_seed(new_seed)` -/
 def setSeed (st : St α) (s : Nat) : St α := if s ≠ st.seed then resetSeed st (some s) else st
 
-/-- `Fourier.update`; `eqv a b` is the code's `a == b` on models (`compare`, built on `np.isclose`) -/
-def update [Inhabited α] (eqv : Mdl α → Mdl α → Bool) (st : St α) (u : Upd α) : St α × Out :=
-  if !st.hasModel && u.model.isNone then (st, Out.unsupported) else
-  let tmp : Mdl α := u.model.getD st.model
-  if st.hasModel && tmp.dim ≠ st.model.dim then (st, Out.unsupported) else
-  if !st.hasPeriod && (u.period.isNone || u.modeNo.isNone) then (st, Out.unsupported) else
-  -- mode_no is validated first; an odd count raises before anything is written
-  let odd : Bool := match u.modeNo with
-    | some mn => (List.range tmp.dim).any fun d => (fillToDim mn d) % 2 != 0
-    | none => false
-  if odd then (st, Out.oddModeNo) else
-  let newModel : Bool := match u.model with
-    | some m => !(st.hasModel && eqv st.model m)
-    | none => false
-  -- the mode grid depends on the period and the model's anisotropy
-  let st : St α :=
-    if u.period.isSome || (newModel && st.hasPeriod) then
-      let st : St α := match u.period with
-        | some p => { st with period := fillToDim p, hasPeriod := true }
-        | none => st
-      let st : St α := { st with deltaK := fun d => deltaK st.period tmp.anis d, fresh := false }
-      if u.modeNo.isNone then setModes st st.modeNo else st
-    else st
-  let st : St α := match u.modeNo with
-    | some mn => setModes st (fillToDim mn)
-    | none => st
+/-- `new_model = isinstance(model, CovModel) and self._model != model`;
+    `eqv a b` is the code's `a == b` on models (`compare`, built on `np.isclose`) -/
+def isNewModel (eqv : Mdl α → Mdl α → Bool) (st : St α) (um : Option (Mdl α)) : Bool :=
+  match um with
+  | some m => !(st.hasModel && eqv st.model m)
+  | none => false
+
+/-- first block of `update`: the mode grid depends on the period and the model's anisotropy -/
+def gridStep [Inhabited α] (st : St α) (tmpAnis : Nat → α) (newModel : Bool) (up : Option (Array α))
+    (umn : Option (Array Nat)) : St α :=
+  if up.isSome || (newModel && st.hasPeriod) then
+    let st : St α := match up with
+      | some p => { st with period := fillToDim p, hasPeriod := true }
+      | none => st
+    let st : St α := { st with deltaK := fun d => deltaK st.period tmpAnis d, fresh := false }
+    if umn.isNone then setModes st st.modeNo else st
+  else st
+
+/-- `if mode_no is not None: self._set_modes(mode_no, dim)` -/
+def modesStep (st : St α) (umn : Option (Array Nat)) : St α :=
+  match umn with
+  | some mn => setModes st (fillToDim mn)
+  | none => st
+
+/-- last block of `update`: store the model, reseed -/
+def seedStep (st : St α) (newModel : Bool) (u : Upd α) : St α × Out :=
   match u.model with
   | some m =>
     -- also update when the mode mesh was modified
@@ -186,6 +186,23 @@ def update [Inhabited α] (eqv : Mdl α → Mdl α → Bool) (st : St α) (u : U
     else match u.seed with
       | some s => (setSeed st s, Out.ok)
       | none => (st, Out.neither)
+
+/-- `mode_no` after `_fill_to_dim` has an odd entry -/
+def oddModeNo (dim : Nat) (umn : Option (Array Nat)) : Bool :=
+  match umn with
+  | some mn => (List.range dim).any fun d => (fillToDim mn d) % 2 != 0
+  | none => false
+
+/-- `Fourier.update(model, seed, period, mode_no)` -/
+def update [Inhabited α] (eqv : Mdl α → Mdl α → Bool) (st : St α) (u : Upd α) : St α × Out :=
+  if !st.hasModel && u.model.isNone then (st, Out.unsupported) else
+  let tmp : Mdl α := u.model.getD st.model
+  if st.hasModel && tmp.dim ≠ st.model.dim then (st, Out.unsupported) else
+  if !st.hasPeriod && (u.period.isNone || u.modeNo.isNone) then (st, Out.unsupported) else
+  -- mode_no is validated first; an odd count raises before anything is written
+  if oddModeNo tmp.dim u.modeNo then (st, Out.oddModeNo) else
+  let newModel : Bool := isNewModel eqv st u.model
+  seedStep (modesStep (gridStep st tmp.anis newModel u.period u.modeNo) u.modeNo) newModel u
 
 /-- `Fourier(model, period, mode_no, seed)` -/
 def init [Inhabited α] (eqv : Mdl α → Mdl α → Bool) (m : Mdl α) (seed : Nat) (period : Array α) (modeNo : Array Nat) :
@@ -267,6 +284,7 @@ private def stJson (st : St Float) (o : Out) : Json :=
     ("seed", Json.num (JsonNumber.fromNat st.seed)),
     ("zlen", Json.num (JsonNumber.fromNat st.zLen)),
     ("fresh", Json.bool st.fresh),
+    ("dk_coherent", Json.bool ((List.range dim).all fun d => st.deltaK d == deltaK st.period st.model.anis d)),
     ("resets", Json.num (JsonNumber.fromNat st.resets))]
 
 /-- line-protocol operations of this model; `none` = not one of mine -/
